@@ -142,7 +142,10 @@ def line_polygon_intersections(polygon, line, bound_line = (True,True)):
     crossings = [np.array(c) for c, i in ind.items()]
     # Remove duplicates and sort by distance from start of line:
     d = np.array([norm(c - line[0]) for c in crossings])
-    if len(d) > 0: d = d / max(d[-1], 1) # non-dimensionalise
+    if len(d) > 0: # non-dimensionalise by polygon size
+        n = len(polygon)
+        size = max([norm(polygon[(i+1)%n] - p) for i, p in enumerate(polygon)])
+        if size > 0: d = d / size
     d = d.round(decimals = 3)
     d_unique, i_unique = np.unique(d, return_index = True)
     sortindex = np.argsort(d_unique)
